@@ -463,3 +463,95 @@ m("C01", "refactor-wrap-twice", ZP,
             TARGET
         )
 ''', expect="silent")
+
+# ---- C03 -------------------------------------------------------------------
+T = "tokenize.py"
+PA = "parser.py"
+m("C03", "end-space-doubled", C,
+  "yield EmitText(node.prefix + node.name + node.suffix)\n\n    def visit_Attribute",
+  "yield EmitText(node.prefix + node.name + node.space + node.suffix)\n\n    def visit_Attribute")
+m("C03", "text-needs-two-chars", T,
+  'a("TextSE", "[^<]+")', 'a("TextSE", "[^<][^<]+")')
+m("C03", "text-excludes-amp", T,
+  'a("TextSE", "[^<]+")', 'a("TextSE", "[^<&]+")')
+m("C03", "markup-requires-tag", T,
+  '''"\\\\?(?:%(PI_CE)s)?|/(?:%(EndTagCE)s)?|(?:%(ElemTagCE)s)?)")''',
+  '''"\\\\?(?:%(PI_CE)s)?|/(?:%(EndTagCE)s)?|(?:%(ElemTagCE)s))")''')
+m("C03", "iter-skips-whitespace-tokens", T,
+  '''        string = match.group()
+        pos = match.start()
+        yield Token(string, pos, body, filename)''',
+  '''        string = match.group()
+        pos = match.start()
+        if not string.strip(' '):
+            continue
+        yield Token(string, pos, body, filename)''')
+m("C03", "token-pos-relative", T,
+  '''        pos = match.start()
+        yield Token(string, pos, body, filename)''',
+  '''        pos = match.end()
+        yield Token(string, pos, body, filename)''')
+m("C03", "start-suffix-dropped", C,
+  '''            yield from self.visit(node.attributes)
+
+            yield EmitText(node.suffix)''',
+  '''            yield from self.visit(node.attributes)
+
+            yield EmitText(">")''')
+m("C03", "attr-eq-normalised", C,
+  '''        attr_format = (node.space + node.name + node.eq +
+                       node.quote + "%s" + node.quote)''',
+  '''        attr_format = (node.space + node.name + "=" +
+                       node.quote + "%s" + node.quote)''')
+m("C03", "attr-space-eq-swapped", ZP,
+  '''                    quote,
+                    eq,
+                    space,
+                    default,
+                    filtering[-1],''',
+  '''                    quote,
+                    space,
+                    eq,
+                    default,
+                    filtering[-1],''')
+m("C03", "cdata-always-interpolated", ZP,
+  '''        if not self._interpolation[-1] or '${' not in node:
+            return nodes.Text(node)
+
+        expr = nodes.Substitution(node, ())''',
+  '''        if not self._interpolation[-1]:
+            return nodes.Text(node)
+
+        expr = nodes.Substitution(node, ())''')
+m("C03", "newline-rewrite-in-xml", "zpt/template.py",
+  '''            body = body.replace('\\r\\n', '\\n').replace('\\r', '\\n')
+
+        return MacroProgram(''',
+  '''            pass
+
+        body = body.replace('\\r\\n', '\\n').replace('\\r', '\\n')
+
+        return MacroProgram(''')
+m("C03", "tabs-expanded", "zpt/template.py",
+  '''            body = body.replace('\\r\\n', '\\n').replace('\\r', '\\n')''',
+  '''            body = body.replace('\\r\\n', '\\n').replace('\\r', '\\n')
+            body = body.expandtabs()''')
+m("C03", "default-strips", ZP,
+  '''    def visit_default(self, node):
+        return nodes.Text(node)''',
+  '''    def visit_default(self, node):
+        return nodes.Text(node.strip())''')
+m("C03", "suffix-not-updated", PA,
+  '''        attrs.append(attr)
+        d['suffix'] = token[m.end():]''',
+  '''        attrs.append(attr)''')
+m("C03", "refactor-iter-xml", T,
+  '''        string = match.group()
+        pos = match.start()
+        yield Token(string, pos, body, filename)''',
+  '''        yield Token(match.group(), match.start(), body, filename)''',
+  expect="silent")
+m("C03", "refactor-end-format", C,
+  "yield EmitText(node.prefix + node.name + node.suffix)\n\n    def visit_Attribute",
+  "text = node.prefix + node.name\n        yield EmitText(text + node.suffix)\n\n    def visit_Attribute",
+  expect="silent")
